@@ -1713,11 +1713,11 @@ Fixpoint wfp (held : bool) (p : lockprog) : Prop :=
   | IWork :: r => wfp held r
   end.
 
-Definition holds (s : msys) (t : nat) : bool := match mu s with Some h => h =? t | None => false end.
+Definition holds (s : msys) (t : nat) : bool := match mtx s with Some h => h =? t | None => false end.
 
 Definition MInv (s : msys) : Prop :=
   (forall t p, nth_error (progs s) t = Some p -> wfp (holds s t) p) /\
-  (forall h, mu s = Some h -> h < length (progs s)).
+  (forall h, mtx s = Some h -> h < length (progs s)).
 
 Lemma set_nth_length {A} (l : list A) i x : length (set_nth l i x) = length l.
 Proof. revert i; induction l as [|y r IH]; intros [|i]; cbn; auto. Qed.
@@ -1735,13 +1735,13 @@ Proof.
   assert (Lt : t < length (progs s)) by (apply nth_error_Some; congruence).
   pose proof (W t p Ep) as Wt.
   destruct p as [|i r]; [discriminate|]. destruct i.
-  - destruct (mu s) eqn:Em; [discriminate|]. inv_some. cbn in Wt. destruct Wt as [_ Wr].
+  - destruct (mtx s) eqn:Em; [discriminate|]. inv_some. cbn in Wt. destruct Wt as [_ Wr].
     split; cbn; [|intros h Hh; inv_some; now rewrite set_nth_length].
     intros t0 p0 Hp. unfold holds. cbn. destruct (Nat.eq_dec t0 t) as [->|Hne].
     + rewrite nth_set_nth_same in Hp by auto. inv_some. now rewrite Nat.eqb_refl.
     + rewrite nth_set_nth_other in Hp by auto. specialize (W t0 p0 Hp). unfold holds in W. rewrite Em in W.
       apply Nat.eqb_neq in Hne. rewrite Nat.eqb_sym, Hne. exact W.
-  - destruct (mu s) as [h|] eqn:Em; [|discriminate]. destruct (h =? t) eqn:Eh; [|discriminate].
+  - destruct (mtx s) as [h|] eqn:Em; [|discriminate]. destruct (h =? t) eqn:Eh; [|discriminate].
     apply Nat.eqb_eq in Eh. subst h. inv_some. cbn in Wt. destruct Wt as [_ Wr].
     split; cbn; [|intros h Hh; discriminate].
     intros t0 p0 Hp. unfold holds. cbn. destruct (Nat.eq_dec t0 t) as [->|Hne].
@@ -1772,8 +1772,8 @@ Qed.
    waits for ever: whoever waits for the mutex waits for a holder that can always run on to its Unlock. *)
 Theorem mutex_never_stuck ps ts s :
   Forall (wfp false) ps -> mrun (mkM None ps) ts = Some s ->
-  (forall h, mu s = Some h -> exists s', mstep s h = Some s') /\
-  (mu s = None -> forall t p, nth_error (progs s) t = Some p -> p <> [] -> exists s', mstep s t = Some s').
+  (forall h, mtx s = Some h -> exists s', mstep s h = Some s') /\
+  (mtx s = None -> forall t p, nth_error (progs s) t = Some p -> p <> [] -> exists s', mstep s t = Some s').
 Proof.
   intros F R. pose proof (mrun_inv _ _ _ (MInv_init _ F) R) as [W B]. split.
   - intros h Hh. pose proof (B h Hh) as Lt. destruct (nth_error (progs s) h) as [p|] eqn:Ep;
@@ -1809,7 +1809,9 @@ Theorem router_programs_well_bracketed hs :
   wfp false (loop_exit_prog false hs) /\ wfp false send_prog /\ wfp false stop_prog.
 Proof.
   split; [|split; cbn; auto 10].
-  unfold loop_exit_prog. cbn [app]. repeat (apply wfp_app; cbn; auto). apply wfp_handlers.
+  unfold loop_exit_prog. cbn [app].
+  apply wfp_app; [cbn; auto|]. apply wfp_app; [cbn; auto|].
+  apply wfp_app; [apply wfp_handlers|]. cbn. auto.
 Qed.
 
 (* seeded change C09-A (handlers called with the mutex held), one re-entrant handler, one Send: after the
